@@ -33,6 +33,8 @@ pub struct Stats {
     pub clock_jumps: u64,
     #[serde(default)]
     pub clock_reads: u64,
+    #[serde(default)]
+    pub dep_atomic_ops: u64,
     pub interleaving_sig: u64,
 }
 
@@ -50,6 +52,7 @@ impl From<oh_verif_rt::ExecStats> for Stats {
             eintr_reads: s.eintr_reads,
             clock_jumps: s.clock_jumps + oh_verif_rt::time::stats().1,
             clock_reads: oh_verif_rt::time::stats().0,
+            dep_atomic_ops: s.dep_atomic_ops,
             interleaving_sig: s.interleaving_sig,
         }
     }
